@@ -55,18 +55,25 @@ const (
 	kIPCPAck
 	kIP
 	kCleanup // virtual time passes (step.Sleep), then one cleanup tick; not a frame
+	// discovery-stage kinds added for the foreign-MAC clause on DISCOVERY frames (disc_test.go); appended so that
+	// the numbering of the kinds above (used by the committed replay files) is unchanged
+	kPADRCopy  // PADR from Src carrying exactly the tag area of the PADR that created session SID (Src = owner: a retransmission)
+	kPADIFlood // Variant PADIs in a row from Src, Host-Uniq cycling through the shared alphabet and the value of session SID
 	nKinds
 )
 
 var kindName = [...]string{"padi", "padr", "padr-nocookie", "padt", "lcp-cfg-req", "lcp-cfg-ack", "lcp-cfg-nak",
 	"lcp-term-req", "lcp-echo-req", "pap-req", "pap-malformed", "chap-resp", "ipcp-cfg-req", "ipcp-cfg-req",
-	"ipcp-cfg-req", "ipcp-cfg-req", "ipcp-cfg-ack", "ip-data", "cleanup"}
+	"ipcp-cfg-req", "ipcp-cfg-req", "ipcp-cfg-ack", "ip-data", "cleanup", "padr", "padi"}
 
 var kindShort = [...]string{"PADI", "PADR", "PADR-nocookie", "PADT", "LCPreq", "LCPack", "LCPnak", "LCPterm", "LCPecho",
-	"PAP", "PAPbad-format", "CHAPresp", "IPCPreq0", "IPCPreqAddr", "IPCPreqDNS", "IPCPreqPlain", "IPCPack", "IP", "cleanup"}
+	"PAP", "PAPbad-format", "CHAPresp", "IPCPreq0", "IPCPreqAddr", "IPCPreqDNS", "IPCPreqPlain", "IPCPack", "IP", "cleanup", "PADRcopy", "PADIflood"}
 
 func (k frameKind) isIPCPReq() bool { return k >= kIPCPReqZero && k <= kIPCPReqPlain }
 func (k frameKind) isSession() bool { return k >= kLCPReq && k <= kIP }
+func (k frameKind) isPADR() bool    { return k == kPADR || k == kPADRNoCookie || k == kPADRCopy }
+func (k frameKind) isPADI() bool    { return k == kPADI || k == kPADIFlood }
+func (k frameKind) hasSID() bool    { return k.isSession() || k == kPADT } // the frame itself carries a session id
 
 // step is one generated input.
 type step struct {
@@ -81,6 +88,7 @@ type step struct {
 	UseNak  bool // kIPCPReqAddr: ask for the address the server last Nak'ed on this session, if any
 	Variant int  // malformation / option variant
 	Sleep   time.Duration
+	Tags    discTags `json:",omitzero"` // discovery tags (kPADI, kPADR, kPADRNoCookie); the zero value is the per-peer legacy form
 }
 
 func (s step) String() string {
@@ -88,6 +96,16 @@ func (s step) String() string {
 		return fmt.Sprintf("cleanup(+%s)", s.Sleep)
 	}
 	x := fmt.Sprintf("%s:%s", peerName[s.Src], kindShort[s.Kind])
+	switch s.Kind {
+	case kPADI, kPADR, kPADRNoCookie:
+		if s.Tags != (discTags{}) {
+			x += fmt.Sprintf("(id=%d,%s)", s.Ident, s.Tags)
+		}
+	case kPADRCopy:
+		x += fmt.Sprintf("(tags-of-sid=%d)", s.SID)
+	case kPADIFlood:
+		x += fmt.Sprintf("(n=%d,sid=%d)", s.Variant, s.SID)
+	}
 	if s.Kind.isSession() || s.Kind == kPADT {
 		x += fmt.Sprintf("(sid=%d", s.SID)
 		switch s.Kind {
@@ -129,8 +147,20 @@ func (c caseSpec) String() string {
 
 // build renders a step into (source MAC, discovery?, payload).  nak is the
 // address last Nak'ed by the server on s.SID (observed), if any.
-func (s step) build(nak *[4]byte, cookie []byte) (src mac, discovery bool, payload []byte) {
+func (s step) build(nak *[4]byte, env *discEnv) (src mac, discovery bool, payload []byte) {
 	src = peers[s.Src]
+	if env == nil {
+		env = &discEnv{}
+	}
+	switch s.Kind {
+	case kPADI, kPADR, kPADRNoCookie:
+		if s.Tags != (discTags{}) {
+			return src, true, s.buildDiscovery(env)
+		}
+	case kPADRCopy:
+		return src, true, pppoeHdr(codePADR, 0, env.padrTagsOf(s.SID))
+	}
+	cookie := env.lastCookie(src)
 	hu := tag(tagHostUniq, []byte{byte(s.Src), s.Ident})
 	switch s.Kind {
 	case kPADI:
@@ -252,9 +282,10 @@ type monitor struct {
 	res    *result
 	settl  func()
 	last   snaps
-	cookie map[mac][]byte // AC-Cookie of the last PADO sent to each MAC
+	env    *discEnv // what was observed on the wire and can be re-used by any peer (cookies, PADR tag areas)
 	lean   bool           // no trace (bulk enumeration); a violating case is re-run with the trace on
 	loop   bool           // deliver through the real receiveLoop (in-memory socket) instead of the handler entry points
+	rtime  bool           // real time (no synctest bubble): `go startLCPNegotiation` is only waited for with a bound
 }
 
 func newServer(spec caseSpec, snk *sink) (*pppoe.Server, error) {
@@ -395,13 +426,13 @@ func (m *monitor) step(i int, st step) bool {
 
 	var nak *[4]byte
 	target, addressed := m.sess[st.SID]
-	if !(st.Kind.isSession() || st.Kind == kPADT) {
+	if !st.Kind.hasSID() {
 		target, addressed = nil, false
 	}
 	if addressed {
 		nak = target.nak
 	}
-	src, disc, payload := st.build(nak, m.cookie[peers[st.Src]])
+	src, disc, payloads := st.frames(nak, m.env)
 
 	// NT bookkeeping (before the frame acts)
 	if addressed {
@@ -415,21 +446,24 @@ func (m *monitor) step(i int, st step) bool {
 			res.nontrivial = true
 			res.classes["nt:ipcp-or-ip-before-auth"] = true
 		}
-	} else if st.Kind.isSession() || st.Kind == kPADT {
+	} else if st.Kind.hasSID() {
 		res.classes["addr:unknown-session"] = true
 	}
+	ownRetx := m.discoveryBookkeeping(st, src, payloads, before)
 
 	var acceptsBefore int64
 	if m.rs != nil {
 		m.rs.outcome.Store(int32(st.Radius))
 		acceptsBefore = m.rs.accepts.Load()
 	}
-	if p := m.deliver(src, disc, payload); p != nil {
-		res.panicked = p
-		m.fail(i, "C04/server/panic/"+kind, "handler panicked on %s: %v", st, p)
-		return false
+	for _, payload := range payloads {
+		if p := m.deliver(src, disc, payload); p != nil {
+			res.panicked = p
+			m.fail(i, "C04/server/panic/"+kind, "handler panicked on %s: %v", st, p)
+			return false
+		}
 	}
-	if !m.lean || st.Kind == kPADR || st.Kind == kPAP {
+	if !m.lean || st.Kind.isPADR() || st.Kind == kPAP {
 		m.settl() // lets `go startLCPNegotiation` (PADR) and the RADIUS client's helper goroutine (PAP) finish
 	}
 	radiusAccepted := m.rs != nil && m.rs.accepts.Load() > acceptsBefore
@@ -440,16 +474,35 @@ func (m *monitor) step(i int, st step) bool {
 	for _, f := range m.snk.drain() {
 		e := parseEmitted(f)
 		ems = append(ems, e)
-		if !m.lean {
+		if !m.lean && len(emStr) < 6 {
 			emStr = append(emStr, e.String())
 		}
 	}
 	if !m.lean {
+		if len(ems) > len(emStr) {
+			emStr = append(emStr, fmt.Sprintf("... %d frames in all", len(ems)))
+		}
 		res.trace = append(res.trace, fmt.Sprintf("%s -> [%s]", st, strings.Join(emStr, " ")))
 	}
 
-	// ---- clause (2): every session whose owner is not the sender is untouched
-	for id, ms := range m.sess {
+	// ---- clause (2): every session whose owner is not the sender is untouched - whatever kind of
+	// frame this was (session stage, PADT, and equally PADI / PADR, which carry no session id but
+	// can reference another peer's session through Host-Uniq / AC-Cookie)
+	foreignSig := func(eff string, a pppoe.VerifSession, b pppoe.VerifSession, oka bool) string {
+		if m.loop {
+			if oka && !bytes.Equal(b.ClientMAC, a.ClientMAC) {
+				return "C04/rxloop/owner-mac-rewritten"
+			}
+			return "C04/rxloop/foreign-mac/" + kind + "/" + eff
+		}
+		return "C04/foreign-mac/" + kind + "/" + eff
+	}
+	via := ""
+	if m.loop {
+		via = "via receiveLoop: "
+	}
+	for _, id := range m.sessionIDs() {
+		ms := m.sess[id]
 		if ms.owner == src {
 			continue
 		}
@@ -463,19 +516,37 @@ func (m *monitor) step(i int, st step) bool {
 			if !addressed || id != st.SID {
 				where = "not even addressed to it"
 			}
-			if m.loop {
-				sig := "C04/rxloop/foreign-mac/" + kind + "/" + eff
-				if oka && !bytes.Equal(b.ClientMAC, a.ClientMAC) {
-					sig = "C04/rxloop/owner-mac-rewritten"
-				}
-				m.fail(i, sig, "via receiveLoop: frame %s from %s (owner of session %d is %s; frame %s): %s; before=%s", st, src, id, ms.owner, where, det, snapStr(b))
-				return false
-			}
-			m.fail(i, "C04/foreign-mac/"+kind+"/"+eff,
-				"frame %s from %s (owner of session %d is %s; frame %s): %s; before=%s", st, src, id, ms.owner, where, det, snapStr(b))
+			m.fail(i, foreignSig(eff, a, b, oka), "%sframe %s from %s (owner of session %d is %s; frame %s): %s; before=%s", via, st, src, id, ms.owner, where, det, snapStr(b))
 			return false
 		}
 	}
+	// ... and nothing is emitted on it: no PPP frame towards its owner, no PADT, and above all no
+	// PADS that "confirms" its session id to whoever sent this frame
+	for _, e := range ems {
+		if !e.ok || e.sid == 0 {
+			continue
+		}
+		ms := m.sess[e.sid] // sessions created by this very frame are not registered yet
+		if ms == nil || ms.owner == src {
+			continue
+		}
+		if m.rtime && e.etherType == etSession && e.proto == protoLCP && e.cpCode == cpConfReq {
+			// outside a bubble the first Configure-Request of an EARLIER PADR (sent from its own goroutine) may
+			// surface late; it cannot be attributed to this frame, so it is not judged (the bubble runs judge it)
+			continue
+		}
+		b, okb := before.get(e.sid)
+		if !okb {
+			continue
+		}
+		eff, what := "emitted-on-session", "the server emitted "+e.String()+" on that session"
+		if e.etherType == etDiscovery && e.code == codePADS {
+			eff, what = "pads-names-session", fmt.Sprintf("the server answered with %s: a PADS naming that session's id", e)
+		}
+		m.fail(i, foreignSig(eff, b, b, true), "%sframe %s from %s (owner of session %d is %s): %s; session before=%s", via, st, src, e.sid, ms.owner, what, snapStr(b))
+		return false
+	}
+	m.discoveryAfter(st, src, payloads, before, after, ems, ownRetx)
 
 	// ---- sessions created by this frame: owner = source of the PADR answered with PADS
 	for _, a := range after {
@@ -523,14 +594,6 @@ func (m *monitor) step(i int, st step) bool {
 				res.papAcks++
 			}
 			ms.authOK = true
-		}
-	}
-
-	for _, e := range ems {
-		if e.etherType == etDiscovery && e.code == codePADO {
-			if c := findTag(e.tags, tagACCookie); c != nil {
-				m.cookie[e.dst] = c
-			}
 		}
 	}
 
@@ -599,7 +662,8 @@ func runStepsVia(spec caseSpec, rs *radServer, rc radiusSetter, settle func(), l
 func runStepsOpt(spec caseSpec, rs *radServer, rc radiusSetter, settle func(), loop, lean bool) *result {
 	res := &result{classes: map[string]bool{}, at: -1}
 	snk := &sink{}
-	if settle == nil {
+	realTime := settle == nil
+	if realTime {
 		settle = snk.settleRealTime
 	}
 	srv, err := newServer(spec, snk)
@@ -610,7 +674,7 @@ func runStepsOpt(spec caseSpec, rs *radServer, rc radiusSetter, settle func(), l
 	if rc != nil {
 		rc(srv)
 	}
-	m := &monitor{spec: spec, srv: srv, snk: snk, rs: rs, sess: map[uint16]*msess{}, res: res, settl: settle, loop: loop, lean: lean, cookie: map[mac][]byte{}}
+	m := &monitor{spec: spec, srv: srv, snk: snk, rs: rs, sess: map[uint16]*msess{}, res: res, settl: settle, loop: loop, lean: lean, rtime: realTime, env: newDiscEnv()}
 	if spec.Radius == radNone {
 		m.rs = nil
 	}
